@@ -162,6 +162,8 @@ class CallOps:
             p = args[1] if len(args) > 1 else kwargs['prefix']
             if s.is_const and p.is_const:
                 return self.const(textwrap.indent(s.const, p.const))
+            if p.is_const and p.const == '':
+                return self.need_str(s, node)        # indenting by nothing leaves the text as it is
             st.decls.fun('tw_indent', ['String', 'String'], 'String')
             return self.mk_str("(tw_indent %s %s)" % (self.need_str(s, node).term, self.need_str(p, node).term))
         if name in ('reduce', 'functools.reduce'):
